@@ -1424,7 +1424,11 @@ class LangServer:
                     tmp_file.ast.resolve_links(self.obj_tree, self.link_version)
             return
         did_change, err_str = self.update_workspace_file(
-            filepath, read_file=True, allow_empty=did_open
+            filepath,
+            read_file=True,
+            allow_empty=did_open,
+            # The client's buffer may differ from the file on disk
+            text=params["textDocument"].get("text") if did_open else None,
         )
         if err_str is not None:
             self.post_message(f"Save request failed for file '{filepath}': {err_str}")
@@ -1462,6 +1466,7 @@ class LangServer:
         read_file: bool = False,
         allow_empty: bool = False,
         update_links: bool = False,
+        text: str = None,
     ):
         # Update workspace from file contents and path
         try:
@@ -1470,14 +1475,17 @@ class LangServer:
                 if file_obj is None:
                     file_obj = FortranFile(filepath, self.pp_suffixes)
                     # Create empty file if not yet saved to disk
-                    if not os.path.isfile(filepath):
+                    if text is None and not os.path.isfile(filepath):
                         if allow_empty:
                             file_obj.ast = FortranAST(file_obj)
                             self.workspace[filepath] = file_obj
                             return False, None
                         else:
                             return False, "File does not exist"  # Error during load
-                err_string, file_changed = file_obj.load_from_disk()
+                if text is None:
+                    err_string, file_changed = file_obj.load_from_disk()
+                else:
+                    err_string, file_changed = None, file_obj.load_from_text(text)
                 if err_string:
                     log.error("%s : %s", err_string, filepath)
                     return False, err_string  # Error during file read
